@@ -4,12 +4,12 @@ TECH = "bounded symbolic execution of the go/ssa form of the real functions; eve
 
 CHECKS = {
  "C16": {
-  "text": "Bounded symbolic model checking: UnmarshalBytes/String/Uint/Byte/Uint16/32/64 are executed symbolically from their SSA with the input length (0..12 quick, 0..16 thorough; inputs are windows into a longer backing array, len < cap) and every input byte as solver variables; z3 shows on every path that no bounds/slice panic is reachable, that consumed lies in [1,len] on success and is 0 on error, and that the result is the decoded sub-range (aliasing the input iff newBuf is false). Holds for every byte string within the length bound, including all 64-bit length prefixes.",
+  "text": "Bounded symbolic model checking: UnmarshalBytes/String/Uint/Byte/Uint16/32/64 are executed symbolically from their SSA with the input length (0..12 quick, 0..16 thorough; inputs are windows into a longer backing array, len < cap) and every input byte as solver variables; z3 shows on every path that no bounds/slice panic is reachable, that consumed lies in [1,len] on success and is 0 on error, and that the result is the decoded sub-range (aliasing the input iff newBuf is false; with newBuf=true not even an empty result can reach the input's backing array). Holds for every byte string within the length bound, including all 64-bit length prefixes.",
   "note": "Trusted: the gosx SSA-to-SMT translation (validated per run by executing solver models of passing paths natively), z3; fmt.Errorf and the two unsafe cast helpers are engine intrinsics. Inputs longer than the bound are outside the claim.",
   "technique": TECH,
  },
  "C15": {
-  "text": "Bounded symbolic model checking of the codec: Marshal*/Unmarshal*/Writable*Size and ObjectsWriter are executed from their SSA with the value (all 2^64 varints, all fixed-width values), the destination length (0..size+1, arbitrary prior content) and byte-string contents as solver variables; z3 shows round trip, exact consumed/written counts, size prediction, error iff buffer shorter than the size, writer bytes == Marshal bytes, three-item concatenations and independence of newBuf=true results (cell identity). Byte strings at lengths 0..4, 126..129 (quick) and 16382..16385 (thorough).",
+  "text": "Bounded symbolic model checking of the codec: Marshal*/Unmarshal*/Writable*Size and ObjectsWriter are executed from their SSA with the value (all 2^64 varints, all fixed-width values), the destination length (0..size+1, arbitrary prior content) and byte-string contents as solver variables; z3 shows round trip, exact consumed/written counts, size prediction, error iff buffer shorter than the size, writer bytes == Marshal bytes, three-item concatenations and independence of newBuf=true results, empty ones included (no shared backing array reachable through the result's capacity). Byte strings at lengths 0..4, 126..129 (quick) and 16382..16385 (thorough).",
   "note": "Trusted: gosx translation (self-checked natively on solver models every run), z3; fmt.Errorf and the unsafe cast helpers are intrinsics; the io.Writer is a harness sink that never fails. Byte strings longer than 16385 bytes are outside the claim.",
   "technique": TECH,
  },
@@ -44,7 +44,7 @@ CHECKS = {
   "technique": TECH + "; API-bounded symbolic history against a reference model",
  },
  "C19": {
-  "text": "Bounded symbolic model checking over a small finite space: Is/GRPCWrap/GRPCStatusCode/FromGRPCError/FromGRPCErrorMsg/EmbedObject/ExtractObject are executed from their SSA with the two tables built by the real package initialiser; class (all with a code) x other class x wrap depth 0..4 x embedded object, and all 17 codes, are case-split by the engine; map iteration in insertion and reverse order. The grpc status package and encoding/json are contract stubs, and every sampled path is re-run natively against the REAL grpc/json packages (agreement required).",
+  "text": "Bounded symbolic model checking over a small finite space: Is/GRPCWrap/GRPCStatusCode/FromGRPCError/FromGRPCErrorMsg/EmbedObject/ExtractObject are executed from their SSA with the two tables built by the real package initialiser; class (all with a code) x other class x wrap depth 0..4 (single and double %w) x embedded object x an earlier failed embedding of an unmarshalable value, and all 17 codes, are case-split by the engine; map iteration in insertion and reverse order. The grpc status package and encoding/json are contract stubs, and every sampled path is re-run natively against the REAL grpc/json packages (agreement required).",
   "note": "Trusted: gosx translation, the status/json stubs (validated natively per run). The solver's contribution is modest here (the space is finite and small); arbitrary message texts are outside the claim.",
   "technique": TECH + "; contract stubs validated natively",
  },
@@ -54,7 +54,7 @@ CHECKS = {
   "technique": TECH + "; inductive step from a symbolic pre-state against a reference model",
  },
  "C06": {
-  "text": "Bounded symbolic model checking, inductive step on both backends (Redis over a command-level stub) with expiry instants anywhere relative to now (tie excluded): every operation kind is the first to touch a key after its expiry; z3 shows it is treated as deleted (Get/GetMany/CasByVersion/Delete report it missing, Create succeeds, ListKeys omits it) and that unexpired or never-expiring records are never dropped.",
+  "text": "Bounded symbolic model checking, inductive step on both backends (Redis over a command-level stub) with expiry instants anywhere relative to now (tie excluded): every operation kind is the first to touch a key after its expiry; z3 shows it is treated as deleted (Get/GetMany/CasByVersion/Delete report it missing, Create succeeds, ListKeys omits it) and that unexpired or never-expiring records are never dropped; a record written over an expiring one survives a waiter that wakes up late; a waiter on a record expiring MaxInt64 ns ahead parks (no expiry timer that fires at once).",
   "note": "Trusted: gosx translation (self-checked natively on the 1-hour-offset entry against the real clock), z3; stubs as C03. Redis: the same step over the server stub with server-side expiry and the real expiration() TTL arithmetic (instants at least 1 ms apart). Wall-clock effects and sub-millisecond TTL rounding outside the claim.",
   "technique": TECH + "; inductive step from a symbolic pre-state against a reference model",
  },
@@ -64,7 +64,7 @@ CHECKS = {
   "technique": TECH + "; bounded symbolic scheduling of goroutines + lock-set check",
  },
  "C07": {
-  "text": "Bounded symbolic scheduling of the real in-memory WaitForVersionChange: W=2/3 waiter goroutines (current/stale/empty version, own cancellable context) on 1/2 keys against an environment thread running every script of 3/4 actions over {start waiter, cancel, Put, CasByVersion ok/conflict, Delete, Create, PutMany}; every schedule up to 2/3 preemptions. Monitors: a return value is justified by a moment during the call at which its documented condition held; every waiter whose condition holds does return (lost wake-up = deadlock); bookkeeping invariants after every step; table empty when all waiters are gone; lock-set check.",
+  "text": "Bounded symbolic scheduling of the real in-memory WaitForVersionChange: W=2/3 waiter goroutines (current/stale/empty version, own cancellable context) on 1/2 keys against an environment thread running every script of 3/4 actions over {start waiter, cancel, Put, CasByVersion ok/conflict, Delete, Create, PutMany}; every schedule up to 2/3 preemptions. Monitors: a return value is justified by a moment during the call at which its documented condition held; every waiter whose condition holds does return (lost wake-up = deadlock); bookkeeping invariants after every step; table empty when all waiters are gone; lock-set check; a waiter on a record with a far-future (now+MaxInt64) expiration parks instead of re-arming a timer that fires at once.",
   "note": "Trusted: gosx scheduler and translation, z3; harness contexts; only unexpiring records. Redis: the polling loop over the server stub with the poll timer driven by the environment (every requested duration in (0,100ms], return within three poll periods). Free-running stress outside the claim.",
   "technique": TECH + "; bounded symbolic scheduling of goroutines, deadlock detection, lock-set check",
  },
@@ -74,7 +74,7 @@ CHECKS = {
   "technique": TECH + "; bounded symbolic scheduling of goroutines + lock-set check",
  },
  "C12": {
-  "text": "Bounded symbolic model checking of the timer package: (a) step lemma from any queue of 0..4 (quick) / 0..7 (thorough) futures with symbolic fire times satisfying the heap invariant: Call with any delay (incl. 0/negative) and Cancel at any position, twice, of non-queued futures and of VoidFuture leave membership/fire time/function of every other future unchanged and preserve the invariant (real container/heap SSA); (b) real worker goroutines under the engine's scheduler with a symbolic clock and timers as environment: 2 Calls with symbolic delays, optional Cancels; monitors inside every callback: not early, at most once, never after a Cancel that returned before it was due.",
+  "text": "Bounded symbolic model checking of the timer package: (a) step lemma from any queue of 0..4 (quick) / 0..7 (thorough) futures with symbolic fire times satisfying the heap invariant: Call with any delay (incl. 0/negative) and Cancel at any position, twice, of non-queued futures and of VoidFuture leave membership/fire time/function of every other future unchanged and preserve the invariant (real container/heap SSA); (b) real worker goroutines under the engine's scheduler with a symbolic clock and timers as environment: 2 Calls with symbolic delays (optionally waiting until the first has fired), optional Cancels incl. of a spent handle, lock-set check on the queue, the worker count and every future's index; monitors inside every callback: not early, at most once, never after a Cancel that returned before it was due.",
   "note": "Trusted: gosx scheduler/translation, z3; time.Now/NewTimer/Stop intrinsics over one symbolic non-decreasing clock; preemption bound 0 (switches where a goroutine blocks/ends; timers and select choices free). Runtime timer lateness outside the claim.",
   "technique": TECH + "; inductive step lemma + bounded symbolic scheduling with symbolic time",
  },
@@ -89,7 +89,7 @@ CHECKS = {
   "technique": TECH + "; bounded symbolic scheduling of goroutines with symbolic fault placement",
  },
  "C04": {
-  "text": "Bounded symbolic scheduling of the real lock code without faults: hand-off (every one of N callers gets the lock, a lost wake-up is a deadlock), cancellation before the call / at any point (incl. parked on the local token or in the storage wait) and failing TryLock leave nothing stored and nothing held, quiescence is clean (record gone, tokens back, fresh TryLock succeeds), attempts starting after Shutdown returned never acquire; distinct and shared Lockers; 1 (quick) / 2 (thorough) preemptions.",
+  "text": "Bounded symbolic scheduling of the real lock code without faults: hand-off (every one of N callers gets the lock, a lost wake-up is a deadlock), cancellation before the call / at any point (incl. parked on the local token or in the storage wait) and failing TryLock (also one whose context ends while its storage call is in flight) leave nothing stored and nothing held, quiescence is clean (record gone, tokens back, fresh TryLock succeeds), attempts starting after Shutdown returned never acquire; distinct and shared Lockers; 1 (quick) / 2 (thorough) preemptions.",
   "note": "Trusted: as C01 (time abstracted away, no faults). 'After Shutdown' is read as attempts that start after Shutdown returned. Larger programs outside the claim.",
   "technique": TECH + "; bounded symbolic scheduling of goroutines, deadlock detection",
  },
@@ -99,7 +99,7 @@ CHECKS = {
   "technique": TECH + "; bounded symbolic scheduling with discrete-event symbolic time",
  },
  "C20": {
-  "text": "Bounded symbolic model checking of the path logic: (a) UnzipToFolder with an archive of 1 entry with a name of 1..5 bytes (quick) / 2 entries of 1..4 bytes and 1 entry of 1..7 bytes (thorough), every byte a solver variable, content modelled by its length, destination possibly holding an older longer file: every directory/file it asks the OS to create lies inside the destination, entries that stay inside land at destDir+name - filepath.Split/Join/Clean and zip.FileHeader.FileInfo run from their real SSA; counterexamples are replayed natively with a real archive in a temporary directory; (b) ZipFolder's walk callback on symbolic small trees (files/dirs, depth 1-2, names with spaces/dots, source dir with/without trailing slash, filter answers symbolic, recursive flag): archived names == selected relative paths, and UnzipToFolder maps them back.",
+  "text": "Bounded symbolic model checking of the path logic: (a) UnzipToFolder with an archive of 1 entry with a name of 1..5 bytes (quick) / 2 entries of 1..4 bytes and 1 entry of 1..7 bytes (thorough), every byte a solver variable, content modelled by its length, destination possibly holding an older longer file, destination spelled /dst/out, ., ./, out/ or /: every directory/file it asks the OS to create lies inside the destination, entries that stay inside land at destDir+name - filepath.Split/Join/Clean and zip.FileHeader.FileInfo run from their real SSA; counterexamples are replayed natively with a real archive in a temporary directory; (b) ZipFolder's walk callback on symbolic small trees (files/dirs, depth 1-2, names with spaces/dots, source dir with/without trailing slash, filter answers symbolic, recursive flag): archived names == selected relative paths, and UnzipToFolder maps them back.",
   "note": "Trusted: gosx translation (containment self-checked natively), z3; os/io/zip reader-writer/filepath.Walk are recording contract stubs with a minimal directory model. Content round trip (DEFLATE), permissions, symlinks, unicode, clashes, long names are outside the claim.",
   "technique": TECH + "; environment (file system, archive) as recording stubs",
  },
